@@ -135,7 +135,24 @@ def gen_plan(rng, tier, i, seed):
 
 
 def execute(plan, runner, rundir):
-    return {"segments": [runner.segment(dict(s, rundir=rundir)) for s in plan["segments"]]}
+    from ..pool import HarnessError
+
+    out = []
+    for s in plan["segments"]:
+        try:
+            out.append(runner.segment(dict(s, rundir=rundir)))
+        except HarnessError as he:
+            if he.kind != "crash":
+                raise
+            # the interpreter died inside the solver library while aldy's interface was driving it
+            # (e.g. OR-Tools aborts on duplicate variable / constraint names): that is a verdict here
+            out.append({"violations": [{"clause": "process aborted while a model built through the interface was "
+                                                  "being solved", "detail": {"mode": "crash", "note": he.detail}}],
+                        "unsound": [], "runs": 1, "sample_yields": None,
+                        "stats": {"models": 0, "fired": {}, "fault_points": [], "vertices": [], "ties": 0,
+                                  "truncated": 0, "w2": 0, "w3_models": 0, "w3_yields": 0, "multi_yield": 0,
+                                  "name_collisions": 0, "shapes": [], "helper_checks": 0}})
+    return {"segments": out}
 
 
 def judge(plan, outcome):
@@ -466,6 +483,117 @@ def _run_enum(m, table, mode, viol, unsound, stats, sample=None):
     return ys, nsolves
 
 
+def _post_judge(m, table, bnames, pnames, one, ys, viol, mode):
+    """Clauses that only need the list of yields (used by the two-phase and interleaved modes)."""
+    detail = {"mode": mode, "model": m}
+    allnames = bnames + pnames + (["ONE"] if one is not None else [])
+    if not table:
+        if ys:
+            viol.append({"clause": "infeasible model yielded a solution", "detail": detail})
+        return
+    best = min(table.values())
+    if not ys:
+        viol.append({"clause": "feasible model yielded nothing", "detail": dict(detail, optimum=best)})
+        return
+    seen, prev, first = set(), None, None
+    for k, (status, obj, names) in enumerate(ys):
+        d = dict(detail, index=k, yielded=[status, obj, list(names)])
+        nset = set(names)
+        if len(nset) != len(names) or not nset <= set(allnames):
+            viol.append({"clause": "yielded names are not distinct known variables", "detail": d})
+            return
+        b = tuple(1 if bnames[j] in nset else 0 for j in range(len(bnames)))
+        if b not in table:
+            viol.append({"clause": "yielded solution is infeasible", "detail": d})
+            return
+        if nset != _active_names(m, b, bnames, pnames, one):
+            viol.append({"clause": "product variable differs from the AND of its factors", "detail": d})
+        if abs(obj - table[b]) > TOL:
+            viol.append({"clause": "reported objective differs from the true objective of the yielded solution",
+                         "detail": dict(d, true=table[b])})
+        if k == 0:
+            first = obj
+            if abs(table[b] - best) > TOL:
+                viol.append({"clause": "first yielded solution is not a global optimum", "detail": dict(d, optimum=best)})
+        if table[b] > (1 + m["gap"]) * first + TOL + 1e-5:
+            viol.append({"clause": "yielded solution lies outside the gap", "detail": dict(d, first=first)})
+        key = tuple(sorted(nset))
+        if key in seen:
+            viol.append({"clause": "binary assignment yielded twice", "detail": d})
+        seen.add(key)
+        if prev is not None and obj < prev - TOL:
+            viol.append({"clause": "objectives not in non-decreasing order", "detail": dict(d, prev=prev)})
+        prev = obj
+    if m["limit"] is None:
+        ub = (1 + m["gap"]) * best
+        ysets = [(set(y[2]), y[1]) for y in ys]
+        for b, o in table.items():
+            if o > ub + 1e-6:
+                continue
+            act = _active_names(m, b, bnames, pnames, one)
+            if any(act == s_ for s_, _ in ysets):
+                continue
+            if not any(s_ <= act and yo <= o + TOL for s_, yo in ysets):
+                viol.append({"clause": "within-gap assignment neither yielded nor covered by a yielded subset",
+                             "detail": dict(detail, assignment=list(b), objective=o, optimum=best, yields=ys[:6])})
+                break
+
+
+def _two_phase(m, viol, stats):
+    """The model keeps being built after a first (limit=1) enumeration: one more binary, tied to an
+    existing one, with its own penalty; then it is enumerated again.  Judged against the final model."""
+    import aldy.lpinterface as lpi
+
+    if m["prods"] or len(m["bins"]) < 2 or len(set(m["bins"])) != len(m["bins"]):
+        return 0
+    base = dict(m, bins=m["bins"][:-1])
+    last = len(m["bins"]) - 1
+    # the last binary only appears in its own constraints: B_0 <= B_last, penalty on B_last
+    final = dict(m, errs=[dict(e, coefs={k: v for k, v in e["coefs"].items() if int(k) != last}) for e in m["errs"]],
+                 card=[c for c in m["card"] if last not in c["idx"]],
+                 order=[o for o in m["order"] if last not in o] + [[0, last]],
+                 lin=dict({k: v for k, v in m["lin"].items() if int(k) != last}, **{str(last): 0.07}), limit=None)
+    base = dict(final, bins=final["bins"][:-1], order=[o for o in final["order"] if last not in o],
+                lin={k: v for k, v in final["lin"].items() if int(k) != last})
+    SIM.reset({"monitor": False})
+    M, B, bnames, P, pnames, E, o_abs, one = _build(base)
+    first = list(M.solutions(base["gap"], limit=1))
+    # continue building
+    R = M.addVar(vtype="B", name=final["bins"][last])
+    M.addConstr(B[0] <= R, name="CLATE")
+    M.setObjective(M.objective + 0.07 * R)
+    ys = [[st, round(obj, 6), list(names)] for st, obj, names in M.solutions(final["gap"])]
+    _post_judge(final, _reference(final), bnames + [M.varName(R)], pnames, one, ys, viol, "two_phase")
+    return 1
+
+
+def _interleaved(m1, m2, viol, stats):
+    """Two enumerations alive at the same time, consumed in lock-step."""
+    SIM.reset({"monitor": False})
+    A = _build(m1)
+    Bm = _build(m2)
+    g1 = A[0].solutions(m1["gap"], limit=m1["limit"])
+    g2 = Bm[0].solutions(m2["gap"], limit=m2["limit"])
+    y1, y2 = [], []
+    done1 = done2 = False
+    while not (done1 and done2):
+        if not done1:
+            try:
+                st, obj, names = next(g1)
+                y1.append([st, round(obj, 6), list(names)])
+            except StopIteration:
+                done1 = True
+        if not done2:
+            try:
+                st, obj, names = next(g2)
+                y2.append([st, round(obj, 6), list(names)])
+            except StopIteration:
+                done2 = True
+    _post_judge(m1, _reference(m1), A[2], A[4], A[7], y1, viol, "interleaved")
+    _post_judge(m2, _reference(m2), Bm[2], Bm[4], Bm[7], y2, viol, "interleaved")
+    return 2
+
+
 def _w2(viol, stats):
     """Exhaustive: prod over 1-4 factors (all assignments, helper pushed both ways) and
     abssum over 1-4 terms (all sign patterns)."""
@@ -634,6 +762,18 @@ def run_segment(seg):
                                             "plain": plain}})
                 if len(ys) < len(plain):
                     stats["truncated"] += 1
+    # the interface used the way a library user may use it: building on after an enumeration, and two
+    # enumerations alive at once
+    ok_models = [m for m in seg["models"] if len(set(m["bins"])) == len(m["bins"])]
+    for m in ok_models[:4]:
+        try:
+            runs += _two_phase(m, viol, stats)
+        except Exception as ex:
+            if type(ex).__name__ == "AldyException":
+                raise
+            raise
+    for m1, m2 in zip(ok_models[0::2], ok_models[1::2]):
+        runs += _interleaved(m1, m2, viol, stats)
     if seg.get("w2"):
         SIM.reset({"monitor": False})
         _w2(viol, stats)
